@@ -162,13 +162,32 @@ getUnalignedFragments = FunctionSpec(
          "(query lookup, list.index, slicing with Python's negative-index semantics)")
 
 # ------------------------------------------------------------------ AlignmentResults.resolve (join decision per reference and query)
+def _row_resolve_ensures(C, res):
+    from specs.common import derived, Abs
+    e = C._e
+    me, rest = C.self, C.alignedRest
+    row = res.val
+    R = row.segments
+    a = Abs(R)
+    T = z3.Int('rrT')
+    first, second = me.segments[0], rest.segments[0]
+    body = z3.Implies(a.inside(T), z3.Or(derived(e, a[T], first, proving=C.proving), derived(e, a[T], second, proving=C.proving)))
+    return ([('a_row_is_always_returned', z3.Not(res.none))] if C.proving else []) + [
+            ('joined_row_carries_the_ids_and_strand_of_the_first_part',
+             z3.Implies(z3.Not(res.none), z3.And(row.queryId == me.queryId, row.referenceId == me.referenceId, row.reverseStrand == me.reverseStrand,
+                                                 row.queryLength == me.queryLength, row.referenceLength == me.referenceLength))),
+            ('joined_row_has_at_most_two_segments_each_the_first_segment_of_a_part_or_rebuilt_from_a_subsequence_of_it',
+             z3.And(R.len <= 2, z3.ForAll([T], body) if C.proving else z3.ForAll([T], body, patterns=[z3.Select(R.v.arrs[0], T)]))),
+            ('confidence_is_the_sum_of_the_segment_scores', row.confidence == e.score_sum(R.v, 'segmentScore'))]
+
+
 rowResolve = FunctionSpec(
-    file=F, qualname='AlignmentResultRow.resolve', params=dict(self=ROW, alignedRest=ROW), returns=OPT(ROW), trusted=True, serves=('C08',),
-    ensures=lambda C, res: [('joined_row_carries_the_ids_and_strand_of_the_first_part',
-                             z3.Implies(z3.Not(res.none), z3.And(res.val.queryId == C.self.queryId, res.val.referenceId == C.self.referenceId,
-                                                                 res.val.reverseStrand == C.self.reverseStrand)))],
-    note="ASSUMED here (conflict resolution between the first segments of the two records, then AlignmentResultRow.create with self's ids and strand): "
-         "None or a row with the first part's ids and strand; its content is checked by the bounded C08/C15 monitors")
+    file=F, qualname='AlignmentResultRow.resolve', params=dict(self=ROW, alignedRest=ROW), returns=OPT(ROW), serves=('C08', 'C01'),
+    ensures=_row_resolve_ensures, may_raise={'IndexError'},
+    note="(partial correctness) the row-level join: conflict resolution between the FIRST segments of the two records (the one starting first on the reference "
+         "is the left operand), then AlignmentResultRow.create with the first part's ids, lengths and strand: the joined record has at most two segments, each the "
+         "first segment of a part or rebuilt from a sub-sequence of its positions (so its pairs are a subset of the union of the parts' pairs), Confidence = sum "
+         "of the segment scores")
 
 
 def _gap(a, b):
@@ -295,7 +314,7 @@ _erow = lambda C: C._e.fresh_list(ROW, 'gsrc', n=z3.IntVal(0))
 _emap = lambda C: z3.K(Ref, z3.IntVal(-1))
 resolveRows = FunctionSpec(
     file=F, qualname='AlignmentResults.resolve', params=dict(rows=LIST(ROW), maxDifference=REAL), returns=TUPLE(LIST(ROW), LIST(ROW)),
-    requires=_rr_requires, ensures=_rr_ensures, serves=('C08',),
+    requires=_rr_requires, ensures=_rr_ensures, serves=('C08',), may_raise={'IndexError'}, keep_own_safety=True,
     loops={'for#0': Loop(inv=_rr_inv, kinds={'joined': LIST(ROW), 'separate': LIST(ROW)}),
            'for#1': Loop(inv=lambda L: _rr_inv(L, inner=True), kinds={'joined': LIST(ROW), 'separate': LIST(ROW)})},
     ghost={'ga': _erow, 'gb': _erow, 'wsep': _emap, 'wa': _emap, 'wb': _emap},
